@@ -44,6 +44,10 @@ def run_witness(w):
 
 def witnesses_for(label, registry):
     best = None
+    if label.endswith(".total"):
+        fn = label[:-6].split("::")[-1]
+        ws = registry.FN_WITNESSES.get(fn)
+        if ws: return ws
     for pref, ws in registry.WITNESSES.items():
         if label == pref or label.startswith(pref):
             if best is None or len(pref) > len(best[0]):
